@@ -64,10 +64,7 @@ func seedBinary(w *wtype) func(n int64) []byte {
 	return func(n int64) []byte {
 		for k := int64(0); k < 8; k++ {
 			rng := lib.Rand("c18-robust-seed-"+w.name, n*8+k)
-			g := newGen(rng, n)
-			if g.large {
-				g.budget = 12000
-			}
+			g := newGenRobust(rng, n)
 			v := reflect.New(w.rt).Elem()
 			pick := -1
 			if w.variants > 0 {
@@ -86,9 +83,9 @@ func seedBinary(w *wtype) func(n int64) []byte {
 func seedJSON(w *wtype) func(n int64) []byte {
 	return func(n int64) []byte {
 		rng := lib.Rand("c18-robust-seedj-"+w.name, n)
-		g := newGen(rng, n)
+		g := newGenRobust(rng, n)
 		if g.large {
-			g.budget = 6000
+			g.budget /= 3
 		}
 		v := reflect.New(w.rt).Elem()
 		pick := -1
@@ -310,12 +307,23 @@ func sortStrings(s []string) {
 // mutants builds the fixed mutant list of one group (materialised lazily).
 // full: exhaustive offsets for short seeds and no sampling; otherwise a seeded
 // sample of `sample` mutants.
-func mutants(rng *rand.Rand, d *decoder, seed, other []byte, full bool, sample int) []mutant {
+func mutants(rng *rand.Rand, d *decoder, seed, other []byte, full, headSweep bool, sample int) []mutant {
 	var ms []mutant
 	add := func(kind string, f func() []byte) { ms = append(ms, mutant{kind, f}) }
 	add("valid", func() []byte { return seed })
 	add("empty", func() []byte { return []byte{} })
 	L := len(seed)
+	if headSweep && d.codec == "binary" {
+		// every offset of the first 64 bytes x the key huge-length patterns, never sampled away:
+		// the first length prefixes of a message are hit whatever the seed looks like
+		for o := 0; o < L && o < 64; o++ {
+			for _, p := range [][]byte{bombs[3], bombs[0], bombs[6], bombs[5]} {
+				o, p := o, p
+				add("length-bomb-head", func() []byte { return overwrite(seed, o, p) })
+			}
+		}
+	}
+	protected := len(ms)
 	offs := func(max int) []int {
 		if L == 0 {
 			return []int{0}
@@ -406,11 +414,11 @@ func mutants(rng *rand.Rand, d *decoder, seed, other []byte, full bool, sample i
 		add("json-deep", func() []byte { return []byte(strings.Repeat("[", 20000)) })
 		add("json-deep-obj", func() []byte { return []byte(strings.Repeat("{\"a\":", 5000)) })
 	}
-	if !full && len(ms) > sample+2 {
-		// keep the first two (valid, empty) and a seeded sample of the rest
-		rest := ms[2:]
+	if !full && len(ms) > sample+protected {
+		// keep the protected head (valid, empty, head sweep) and a seeded sample of the rest
+		rest := ms[protected:]
 		rng.Shuffle(len(rest), func(i, j int) { rest[i], rest[j] = rest[j], rest[i] })
-		ms = ms[:2+sample]
+		ms = ms[:protected+sample]
 	}
 	return ms
 }
@@ -469,7 +477,14 @@ func allocBound(d *decoder, lmt, inLen int) uint64 {
 	}
 }
 
-func groupsPerChild() int { return lib.Pick(2400, 16000) }
+// groupsPerChild: VERIF_C18_SCALE (percent, default 100) only exists to shorten debugging runs.
+func groupsPerChild() int {
+	n := lib.Pick(2400, 12000)
+	if s, err := strconv.Atoi(os.Getenv("VERIF_C18_SCALE")); err == nil && s > 0 {
+		n = n * s / 100
+	}
+	return n
+}
 
 // groupPlan: which decoder and seed number a (shard, j) group uses.
 func groupPlan(shard, nshards, j int) (g int64, d *decoder, seedNo int64, full bool) {
@@ -490,7 +505,9 @@ func childMain(args []string) int {
 	fromJ, _ := strconv.Atoi(args[2])
 	fromUnit, _ := strconv.Atoi(args[3])
 	runtime.GOMAXPROCS(1)
-	debug.SetGCPercent(50)
+	// few, large GC cycles: the live heap is tiny, so collect only when 192 MiB of garbage piled up
+	debug.SetGCPercent(-1)
+	debug.SetMemoryLimit(192 << 20)
 	var lim syscall.Rlimit
 	lim.Cur, lim.Max = asLimit, asLimit
 	if err := syscall.Setrlimit(syscall.RLIMIT_AS, &lim); err != nil {
@@ -512,9 +529,9 @@ func childMain(args []string) int {
 	defer inf.Close()
 	w := bufio.NewWriter(out)
 	M := groupsPerChild()
-	sample := lib.Pick(90, 260)
+	sample := lib.Pick(90, 200)
 	var ms1, ms2 runtime.MemStats
-	hdr := make([]byte, hdrLen)
+	hdr := make([]byte, 0, hdrLen+64)
 	for j := fromJ; j < M; j++ {
 		g, d, seedNo, full := groupPlan(shard, nshards, j)
 		rng := lib.Rand("c18-robust-group", g)
@@ -527,7 +544,7 @@ func childMain(args []string) int {
 		if len(seed) > 192 {
 			full = false
 		}
-		muts := mutants(rng, d, seed, other, full, sample)
+		muts := mutants(rng, d, seed, other, full, j < len(decoders), sample)
 		rec := groupRec{Type: "group", Group: g, Counters: map[string]int64{}, MaxRatio: map[string]float64{}, Decoder: d.name}
 		gStart := time.Now()
 		needRestart := false
@@ -536,6 +553,14 @@ func childMain(args []string) int {
 			lims = []int{0}
 		}
 		unit := 0
+		inKey := make([]string, len(lims))
+		for li, lmt := range lims {
+			inKey[li] = "in|" + d.name
+			if d.limKind == limCaller {
+				inKey[li] = fmt.Sprintf("in|%s|limit=%d", d.name, lmt)
+			}
+		}
+		panicKey, errKey, valKey := "panic|"+d.name, "err|"+d.name, "val|"+d.name
 		for mi, mu := range muts {
 			m := struct {
 				kind string
@@ -545,7 +570,7 @@ func childMain(args []string) int {
 				m.data = mu.make()
 			}
 			wroteData := false
-			for _, lmt := range lims {
+			for li, lmt := range lims {
 				unit++
 				if j == fromJ && unit <= fromUnit {
 					continue
@@ -554,23 +579,26 @@ func childMain(args []string) int {
 					inf.WriteAt(m.data, hdrLen)
 					wroteData = true
 				}
-				for i := range hdr {
-					hdr[i] = ' '
+				h := hdr[:0]
+				for _, x := range [5]int{j, unit, lmt, len(m.data), mi} {
+					h = strconv.AppendInt(h, int64(x), 10)
+					h = append(h, ' ')
 				}
-				copy(hdr, fmt.Sprintf("%d %d %d %d %d %s %s", j, unit, lmt, len(m.data), mi, m.kind, d.name))
-				hdr[hdrLen-1] = '\n'
-				inf.WriteAt(hdr, 0)
+				h = append(h, m.kind...)
+				h = append(h, ' ')
+				h = append(h, d.name...)
+				for len(h) < hdrLen-1 {
+					h = append(h, ' ')
+				}
+				h = append(h, '\n')
+				inf.WriteAt(h[:hdrLen], 0)
 				var derr error
 				runtime.ReadMemStats(&ms1)
 				pi := protect(func() { derr = d.dec(m.data, lmt) })
 				runtime.ReadMemStats(&ms2)
 				delta := ms2.TotalAlloc - ms1.TotalAlloc
-				lk := d.name
-				if d.limKind == limCaller {
-					lk = fmt.Sprintf("%s|limit=%d", d.name, lmt)
-				}
-				rec.Counters["in|"+lk]++
-				rec.Counters["mut|"+m.kind]++
+				rec.Counters[inKey[li]]++
+				rec.Counters[mutKey(m.kind)]++
 				mk := func(key, what string) robustViol {
 					in := m.data
 					if len(in) > 2048 {
@@ -579,7 +607,7 @@ func childMain(args []string) int {
 					return robustViol{Key: key, What: what, Decoder: d.name, Limit: lmt, Mutant: m.kind, Group: g, Unit: unit, Input: hex.EncodeToString(in), InputLn: len(m.data)}
 				}
 				if pi != nil {
-					rec.Counters["panic|"+d.name]++
+					rec.Counters[panicKey]++
 					v := mk("robust/"+d.name+"/panic/"+pi.Site, fmt.Sprintf("%s panicked on a %d-byte input (%s): %s", d.name, len(m.data), m.kind, pi.Value))
 					v.Panic, v.Stack = pi.Value, pi.Stack
 					if len(v.Stack) > 3000 {
@@ -589,28 +617,18 @@ func childMain(args []string) int {
 					continue
 				}
 				if derr != nil {
-					rec.Counters["err|"+d.name]++
+					rec.Counters[errKey]++
 				} else {
-					rec.Counters["val|"+d.name]++
+					rec.Counters[valKey]++
 				}
-				base := len(m.data)
-				if d.limKind == limCaller && lmt > base {
-					base = lmt
-				}
-				if d.limKind == limFixed && d.fixed > base {
-					base = d.fixed
-				}
-				if base < 1 {
-					base = 1
-				}
-				ratio := float64(delta) / float64(base)
-				if delta > 4096 && ratio > rec.MaxRatio[d.name] {
+				bnd := allocBound(d, lmt, len(m.data))
+				if ratio := float64(delta) / float64(bnd); ratio > rec.MaxRatio[d.name] {
 					rec.MaxRatio[d.name] = ratio
 				}
 				if delta > 256<<20 {
 					needRestart = true // checked after this unit's verdicts
 				}
-				if b := allocBound(d, lmt, len(m.data)); delta > b {
+				if b := bnd; delta > b {
 					rec.Counters["overalloc|"+d.name]++
 					lclass := "caller-limit"
 					if d.limKind == limFixed {
@@ -646,6 +664,17 @@ func childMain(args []string) int {
 	w.WriteByte('\n')
 	w.Flush()
 	return 0
+}
+
+var mutKeys = map[string]string{}
+
+func mutKey(kind string) string {
+	k, ok := mutKeys[kind]
+	if !ok {
+		k = "mut|" + kind
+		mutKeys[kind] = k
+	}
+	return k
 }
 
 // per group keep at most 2 witnesses per key
